@@ -133,6 +133,10 @@ def c16_suites(tier, seed):
         nbase = 12
     s = [("configs", hists_of(jgen.gen_c16(seed, nbase, cfgs)))]
     s.append(("growth", hists_of(jgen.gen_growth(seed, 2 if q else 12))))
+    # every other value the builder accepts: sizes that are not a multiple of the word size must work or
+    # be refused cleanly (each history in its own probe process: a misaligned access aborts without unwinding)
+    odd = [1025, 1026, 1028, 1030, 1031, 4099, 5001] if q else [1025, 1026, 1027, 1028, 1029, 1030, 1031, 2050, 3001, 4097, 4099, 4100, 5001, 9999, 65537]
+    s.append(("odd-pagesizes", hists_of(jgen.gen_c16(seed + 9, 1, [(ps, 32, 0, 0) for ps in odd]))))
     return s
 
 
